@@ -329,8 +329,17 @@ def rule_r4(ctx: Ctx) -> None:
                     top = parent(top)
                 idx = f.node.body.index(top)
                 before = ast.Module(body=f.node.body[:idx], type_ignores=[])
-                ok = any(isinstance(x, ast.Call) and call_name(x) == "evaluate" and isinstance(x.func, ast.Attribute)
-                         and receiver_may_be(ctx, f, x.func.value, EVALUATOR) for x in ast.walk(before))
+                def evaluates(fn_, tree, depth=0) -> bool:
+                    for x in ast.walk(tree):
+                        if isinstance(x, ast.Call) and call_name(x) == "evaluate" and isinstance(x.func, ast.Attribute) \
+                                and receiver_may_be(ctx, fn_, x.func.value, EVALUATOR):
+                            return True
+                        if isinstance(x, ast.Call) and depth < 2:
+                            t_ = res.resolve(fn_, x)
+                            if t_.kind == "repo" and any(evaluates(g, g.node, depth + 1) for g in t_.targets[:3]):
+                                return True
+                    return False
+                ok = evaluates(f, before)
                 ctx.ob("C13.R4", f, c, "Individual.key_function used after an evaluator pass", ok,
                        "" if ok else "key_function's uncounted ensure_fitness fallback can evaluate individuals here")
 
